@@ -380,6 +380,30 @@ func (C04) Execute(t *testing.T, sc *core.Scenario) *core.Result {
 			vars = append(vars, IdxVariant{Kind: "addr-recrc", A: lk[vr.Intn(len(lk))], B: vr.Intn(16), Mask: byte(1 << vr.Intn(8))})
 			vars = append(vars, IdxVariant{Kind: "drop-lookup-recrc", A: lk[vr.Intn(len(lk))]})
 		}
+		// meta.end re-pointed at every other root record of the journal (the meta record itself
+		// carries no checksum; only the root hash found at the new offset is compared)
+		{
+			offs, _, kinds, _ := nbs.DsimParseJournal(jrn)
+			var rootOffs []int64
+			for i := range offs {
+				if kinds[i] == 1 {
+					rootOffs = append(rootOffs, offs[i])
+				}
+			}
+			cnt := 0
+			for i := len(recs) - 1; i >= 0 && cnt < 24; i-- {
+				if !recs[i].meta {
+					continue
+				}
+				cur := int64(binary.BigEndian.Uint64(idx[recs[i].off+9:]))
+				for _, ro := range rootOffs {
+					if ro != cur && cnt < 24 {
+						vars = append(vars, IdxVariant{Kind: "end-repoint", A: i, B: int(ro)})
+						cnt++
+					}
+				}
+			}
+		}
 		// byte-level: every truncation point and every byte flipped for small indexes, sampled otherwise
 		budget := b.MaxVar - len(vars)
 		if budget < 50 {
@@ -583,6 +607,13 @@ func c04Content(v IdxVariant, idx []byte, snaps [][]byte, other []byte, recs []i
 		o := recs[v.A].off + 25
 		binary.BigEndian.PutUint32(c[o:], uint32(int64(binary.BigEndian.Uint32(c[o:]))+int64(v.B)))
 		return c, true, "lookup.length"
+	case "end-repoint":
+		if v.A >= len(recs) || !recs[v.A].meta {
+			return nil, true, ""
+		}
+		c := cp()
+		binary.BigEndian.PutUint64(c[recs[v.A].off+9:], uint64(v.B))
+		return c, true, "meta.end"
 	case "addr-recrc":
 		if v.A >= len(recs) || recs[v.A].meta {
 			return nil, true, ""
